@@ -52,11 +52,18 @@ def impl_table():
         shutil.rmtree(tmpdir, ignore_errors=True)
 
 
-def gen_run(rng, tier):
-    nfiles = rng.choice([1, 1, 2, 3, 5, 8, 12])
+# files-per-worker relations that are always run (round 10: a dispatch in batches went wrong
+# only when the number of files was a multiple of 4 x workers): (max_parallel_tasks, files)
+MANY_PER_WORKER = [(1, 8), (0, 12), (2, 16), (1, 9), (3, 24), (2, 7), (4, 32), (1, 4), (2, 8)]
+
+
+def gen_run(rng, tier, ratio=None):
+    nfiles = rng.choice([1, 1, 2, 3, 5, 8, 12]) if ratio is None else ratio[1]
     scn = gen.gen_run_scenario(rng, tier, nfiles=nfiles, lines=rng.choice([3, 20, 200]),
-                               constraint=0.0, empty=0.1)
-    scn['max_parallel_tasks'] = rng.choice([0, 1, 2, 3, 4, 8, 16])
+                               constraint=0.0, empty=0.1 if ratio is None else 0.0)
+    scn['max_parallel_tasks'] = rng.choice([0, 1, 2, 3, 4, 8, 16]) if ratio is None else ratio[0]
+    if ratio is not None:
+        return scn
     if rng.random() < 0.2:
         # names a rotation / backup scheme can leave behind (plain content): '.gz' inside
         # the name, not at its end, or twice
@@ -143,7 +150,10 @@ def eval_runs(rng, count, extra):
     todo = fixed if fixed is not None else [None] * count
     out = []
     for item in todo:
-        scn = item if item is not None else gen_run(rng, extra.get('tier', 'quick'))
+        if isinstance(item, dict) and '_ratio' in item:
+            scn = gen_run(rng, extra.get('tier', 'quick'), ratio=item['_ratio'])
+        else:
+            scn = item if item is not None else gen_run(rng, extra.get('tier', 'quick'))
         out.append({'scn': scn, 'impl': run_real(scn)})
     return out
 
@@ -280,6 +290,11 @@ def run(tier, seed, replay_case=None):
     if replay_case is None:
         items += core.run_sharded(eval_runs, seed, nruns, {'tier': tier},
                                   shards=min(core.NCPU, nruns), workers=8)
+        for k, ratio in enumerate(MANY_PER_WORKER):
+            items += core.run_sharded(eval_runs, seed * 31 + k, 1,
+                                      {'tier': tier, 'fixed': [{'_ratio': list(ratio)}]},
+                                      shards=1, workers=1)
+        rep.count('many_files_per_worker_runs', len(MANY_PER_WORKER))
     cases, plans = [], []
     for it in items:
         ev = witness(it['impl'])
